@@ -4,6 +4,7 @@ def b_create_interval_node_int : CR.SrcW.Builder where
   kind := .list
   tag := ""
   xsd := "integerExactOrIntervalGreaterZero"
+  path := []
   parent := ""
   attrs := []
   gattrs := []
@@ -18,7 +19,8 @@ def b_create_interval_node_int_intervalEnd : CR.SrcW.Builder where
   key := "create_interval_node_int/intervalEnd"
   kind := .node
   tag := "intervalEnd"
-  xsd := ""
+  xsd := "integerExactOrIntervalGreaterZero"
+  path := ["intervalEnd"]
   parent := "create_interval_node_int"
   attrs := []
   gattrs := []
@@ -31,7 +33,8 @@ def b_create_interval_node_int_intervalStart : CR.SrcW.Builder where
   key := "create_interval_node_int/intervalStart"
   kind := .node
   tag := "intervalStart"
-  xsd := ""
+  xsd := "integerExactOrIntervalGreaterZero"
+  path := ["intervalStart"]
   parent := "create_interval_node_int"
   attrs := []
   gattrs := []
